@@ -1,9 +1,42 @@
 package checks
 
 import (
+	"math/rand"
+
 	"verifharness/internal/core"
 	"verifharness/internal/gen"
 )
+
+// amoRichCNF: several pairwise at-most-one groups (complete or not) plus a few longer clauses.
+func amoRichCNF(r *rand.Rand, nv int) [][]int {
+	var clauses [][]int
+	for g := 0; g < 2+r.Intn(2); g++ {
+		k := 3 + r.Intn(min(nv, 5)-2)
+		lits := gen.DistinctLits(r, nv, k)
+		if r.Intn(3) > 0 {
+			for j := range lits {
+				if lits[j] > 0 {
+					lits[j] = -lits[j]
+				}
+			}
+		}
+		for a := 0; a < len(lits); a++ {
+			for c := a + 1; c < len(lits); c++ {
+				if r.Intn(8) == 0 {
+					continue
+				}
+				clauses = append(clauses, []int{lits[a], lits[c]})
+			}
+		}
+	}
+	for j := 0; j < r.Intn(4); j++ {
+		clauses = append(clauses, gen.RandClause(r, nv, 2+r.Intn(2), true))
+	}
+	if r.Intn(2) == 0 {
+		clauses = gen.Shuffle(r, clauses)
+	}
+	return clauses
+}
 
 func init() {
 	register(&core.Check{
@@ -27,7 +60,7 @@ func init() {
 					"tokens": []string{}, "names": []string{}, "flags": []string{}, "missing": false, "text": "", "ext": "",
 					"cfg": gen.M{"layout": r.Intn(2), "layoutSeed": r.Intn(1 << 20)}, "ev": []gen.M{gen.Op("run")}}
 			}
-			for i := 0; i < env.Pick(500, 6000); i++ {
+			for i := 0; i < env.Pick(700, 8000); i++ {
 				switch r.Intn(10) {
 				case 0, 1, 2, 3: // .cnf with every flag
 					n := 1 + r.Intn(6)
@@ -35,8 +68,17 @@ func init() {
 					if r.Intn(10) == 0 {
 						clauses = nil
 					}
+					amoRich := r.Intn(3) == 0
+					if amoRich { // pairwise at-most-one groups: what -cp rewrites into cardinality constraints
+						n = 5 + r.Intn(4)
+						clauses = amoRichCNF(r, n)
+					}
 					c := base("cnf", n, gen.ClauseCtors(clauses))
-					switch r.Intn(7) {
+					sel := r.Intn(7)
+					if amoRich && r.Intn(4) > 0 {
+						sel = 3
+					}
+					switch sel {
 					case 0:
 						c["flags"], c["mode"] = []string{"-count"}, "count"
 					case 1:
